@@ -37,6 +37,27 @@ PROPS = {
         "assumptions": ASSUME_COMMON + ["an IPv4-mapped IPv6 host (::ffff:a.b.c.d) may be refused or scanned as exactly a.b.c.d",
                                         "under exclusion-file read faults the accepted outcomes are: refusal with nothing sent, or a scan honouring the complete list"],
     },
+    "C03": {
+        "level": "exploration",
+        "rule": "case = one packet scan (arp, icmp, udp, tcp syn/fin/null/xmas/--flags; subnet / file / file x ports / VPN / chunked) against simulated hosts (alive/open chosen by hash) whose replies arrive with latency below the exit delay, some late, some duplicated, with IP options / TCP options / payload, plus up to 40 unsolicited frames per run (in/out of subnet, in/out of port ranges, all 512 TCP flag sets enumerated over run indexes 0..1023, any ICMP type/code, ARP, UDP, IPv6, IP-in-IP, VLAN); path = real filter text -> real libpcap -> x/net/bpf VM -> real receiver/processor/result channel/logger; oracle = multiset of stdout records (JSON or plain) equals records computed by pktcodec from every frame offered to an open socket before the exit instant; distinct = (argv shape, #unsolicited, #replies, trace hash)",
+        "suites": [{"name": "C03-detection", "quick": 2400, "thorough": 60000, "budget_quick": 100, "budget_thorough": 1500,
+                    "enum": {"what": "each of the 512 TCP flag sets arrives unsolicited during a SYN scan (indexes 0..511) and a FIN scan (512..1023)", "quick": 1024, "thorough": 1024}}],
+        "expect_probes": ["pool-reuse"],
+        "components": COMPONENTS_CMD,
+        "assumptions": ASSUME_COMMON + ["the kernel BPF interpreter is replaced by golang.org/x/net/bpf.VM running the libpcap-compiled program; the veth/real-kernel observation named in the property is not performed",
+                                        "frames arriving exactly at the exit instant may or may not be reported; fragments and malformed frames are not generated here (C06)",
+                                        "unsolicited TCP frames of scans with > 100 port ranges use source ports outside every range (chunk-window independence)"],
+    },
+    "C05": {
+        "level": "exploration",
+        "rule": "case = one packet scan with generated frame options: all 511 non-empty --flags subsets (permuted order, mixed case, repeated name) over run indexes 0..510, sub-commands syn/fin/null/xmas, --ttl 0..255, --ipflags subsets, --ipproto, --iplen, --type/--code 0..255, --payload of 1..1400 bytes incl. odd lengths, --srcip/--srcmac, ARP cache entries vs gateway MAC, VPN framing, pool reuse; every frame on the wire is decoded by pktcodec (strict lengths, IHL, data offset, option walk, IPv4/TCP/UDP/ICMP checksums, zero padding to 60 bytes) and compared field by field with the request; distinct = (argv, trace hash); non-trivial = at least one frame",
+        "suites": [{"name": "C05-frames", "quick": 2400, "thorough": 40000, "budget_quick": 100, "budget_thorough": 1200,
+                    "enum": {"what": "all 511 non-empty subsets of the 9 TCP flags as --flags lists", "quick": 511, "thorough": 511}}],
+        "expect_probes": ["pool-reuse"],
+        "components": COMPONENTS_CMD,
+        "assumptions": ASSUME_COMMON + ["input-space exploration executed through the simulator (the property quantifies over inputs; the schedule-dependent part is buffer recycling)",
+                                        "with --iplen only the verbatim field and the fields not derived from lengths are checked"],
+    },
     "C20": {
         "level": "fault_enumeration",
         "rule": "cases = read-outcome sequences over {F frame, P frame+processor error, A EAGAIN, T timeout net.Error, R ECONNRESET, U unknown, W wrapped temporary, X EOF/EBADF/closed-file}; "
@@ -61,6 +82,10 @@ for _p in PENDING:
         NOT_APPLICABLE.append({"property_id": _p, "reason": "check under construction in this session - not claimed yet (planned in DESIGN.md section 4)"})
 
 MANIFEST_TEXT = {
+    "C03": {"text": "Full packet-scan commands run against a simulated network that answers probes and injects unsolicited traffic; each frame passes through the real libpcap-compiled filter (executed by x/net/bpf), the real receiver, processor, result channel and logger. The records printed are compared as a multiset with the records an independent classifier derives from the bytes of every frame offered to the socket before the exit instant. All 512 TCP flag sets are enumerated as unsolicited frames for SYN and FIN scans.",
+            "note": "Kernel BPF replaced by the x/net/bpf VM on the same program; sampled scenarios; no fragments/malformed frames (C06)."},
+    "C05": {"text": "Every frame written in generated scans is decoded by an independent strict codec and compared with the requested fields (MACs, addresses, ports, flag set, TTL, IP flags, protocol/length overrides verbatim, ICMP type/code, payload, checksums, padding). All 511 non-empty --flags subsets are enumerated; other option values are sampled.",
+            "note": "Exploration of the option space through the simulated wire; borderline for this technique (stated in DESIGN.md section 5)."},
     "C01": {"text": "The whole sx command (cobra parsing, generator selection, chunk loop, exclusion filter, ARP-cache resolver, packet builders, sender) runs under the seeded scheduler on a simulated AF_PACKET wire; every frame written is decoded by an independent codec and the multiset of (address, port) probes is compared with a reference enumeration of the specification. Exploration over generated specifications, rand seeds and schedules.",
             "note": "Sampled specifications up to ~40k probes; kernel/NIC replaced by simwire; socks via simulated TCP dials. Trusts pktcodec and the 40-line reference enumeration."},
     "C02": {"text": "Same full-command simulation as C01 with the confinement oracle (destination of every probe inside the target set and outside exclusions, nothing else removed) over generated exclusion files, a complete catalogue of non-IPv4 target spellings (must be refused, nothing sent, no panic/hang) and injected exclusion-file faults (over-long line, EIO at any offset, short reads).",
